@@ -961,368 +961,4 @@ Proof. intros HS HF. apply sim_iso_lab; auto. apply FI_LAB; auto. Qed.
 
 End SimEnd.
 
-(** ** the symbol loop of the decoder along the script (classes without S and without split events) *)
-Variable rm : bool.
-Variable Y : list Z.     (* the symbols in DECODER order *)
-Hypothesis HNC : NC = 3 * Z.of_nat (length Q).
-Hypothesis HYQ : (length Y <= length Q)%nat.
-Hypothesis Hmaxv : cntv Y <= maxv.
-
-(** the decoder's active corner stack after [k] symbols, as indices of faces (entry j = corner 3j), top first:
-    E pushes, C / R / L replace the top, S (without split event) merges the two top entries *)
-Fixpoint tops (k : nat) : list nat :=
-  match k with
-  | O => []
-  | S k' => match nth_error Y k' with
-            | Some y => if y =? 7 then k' :: tops k' else if y =? 1 then k' :: tl (tl (tops k')) else k' :: tl (tops k')
-            | None => tops k'
-            end
-  end.
-Lemma tops_head k : (1 <= k <= length Y)%nat -> exists T, tops k = (k - 1)%nat :: T.
-Proof.
-  intros Hk. destruct k as [|k']; [lia|]. cbn [tops]. destruct (nth_error Y k') as [y|] eqn:E.
-  - replace (S k' - 1)%nat with k' by lia. destruct (y =? 7); [eauto|]. destruct (y =? 1); eauto.
-  - apply nth_error_None in E. lia.
-Qed.
-
-(** what the encoder guarantees about its [k]-th last symbol (corner [Q[k]]) *)
-Definition script_at (k : nat) : Prop :=
-  match nth_error Y k with
-  | Some y =>
-    (y = 7 /\ ncr k (eco k 0) /\ ncr k (eco k 1) /\ ncr k (eco k 2)) \/
-    (y = 5 /\ (1 <= k)%nat /\ opp_at opp (eco k 2) = Some (eco (k - 1) 0) /\ ncr k (eco k 0) /\ ncr k (eco k 1)) \/
-    (y = 3 /\ (1 <= k)%nat /\ opp_at opp (eco k 1) = Some (eco (k - 1) 0) /\ ncr k (eco k 0) /\ ncr k (eco k 2)) \/
-    (y = 0 /\ (1 <= k)%nat /\ opp_at opp (eco k 1) = Some (eco (k - 1) 0) /\ ncr k (eco k 0) /\ Cint k)
-  | None => False
-  end.
-
-Lemma sym_loop_sim : forall k, (k <= length Y)%nat -> (forall j, (j < k)%nat -> script_at j) ->
-  exists d, D.sym_loop NC maxv rm (Z.of_nat (length Y)) (firstn k Y) 0 (D.init_st []) = D.Ok d /\
-    SIM k d /\ DP.W NC maxv (Z.of_nat k) d /\ DF.FI (Z.of_nat k) d /\ D.nv d = cntv (firstn k Y) /\ D.events d = [] /\
-    D.invalid d = [] /\ D.stack d = map (fun j => dco j 0) (tops k).
-Proof.
-  pose proof (cntv_nonneg Y) as Hc0.
-  induction k as [|k IH]; intros Hk Sc.
-  - exists (D.init_st []). cbn [firstn D.sym_loop]. split; [reflexivity|]. split.
-    { constructor; cbn; intros; lia. }
-    split; [apply DP.W_init; lia|]. split; [apply DF.FI_init|]. cbn. repeat split; auto.
-  - destruct (IH ltac:(lia) ltac:(intros; apply Sc; lia)) as (d & E & HS & HW & HF & Hnv & Hev & Hinv & Hst0).
-    assert (Hst : forall k', k = S k' -> exists rest, D.stack d = dco k' 0 :: rest /\ rest = map (fun j => dco j 0) (tl (tops k))).
-    { intros k' Ek. destruct (tops_head k ltac:(lia)) as (T & ET). rewrite Hst0, ET. cbn [map tl]. replace (k - 1)%nat with k' by lia. eauto. }
-    specialize (Sc k ltac:(lia)). unfold script_at in Sc. destruct (nth_error Y k) as [y|] eqn:Ey; [|contradiction].
-    rewrite (firstn_S_nth _ _ _ Ey), sym_loop_app, E. cbn [D.bind D.sym_loop]. rewrite firstn_length_le by lia.
-    pose proof (s_nf _ _ HS) as Hnf.
-    assert (HW' : DP.W NC maxv (D.nfaces d) d) by (rewrite Hnf; auto).
-    assert (HF' : DF.FI (D.nfaces d) d) by (rewrite Hnf; auto).
-    assert (HN : 3 * D.nfaces d + 3 <= NC) by lia.
-    assert (Hkq : (k < length Q)%nat) by lia.
-    pose proof (cntv_firstn Y (S k)) as Hc1. rewrite (firstn_S_nth _ _ _ Ey), cntv_app in Hc1. cbn [cntv] in Hc1.
-    assert (Fin : forall d', D.step NC maxv rm (Z.of_nat (length Y)) d (0 + Z.of_nat k) y = D.Ok d' ->
-              SIM (S k) d' -> D.nv d' = D.nv d + cntv1 y -> D.events d' = [] -> D.invalid d' = [] ->
-              D.stack d' <> [] -> D.stack d' = map (fun j => dco j 0) (tops (S k)) ->
-              exists d0, D.bind (D.step NC maxv rm (Z.of_nat (length Y)) d (0 + Z.of_nat k) y) (fun s => D.Ok s) = D.Ok d0 /\
-                SIM (S k) d0 /\ DP.W NC maxv (Z.of_nat (S k)) d0 /\ DF.FI (Z.of_nat (S k)) d0 /\
-                D.nv d0 = cntv (firstn k Y ++ [y]) /\ D.events d0 = [] /\ D.invalid d0 = [] /\
-                D.stack d0 = map (fun j => dco j 0) (tops (S k))).
-    { intros d' Es S' Nv' Ev' In' _ St'. exists d'. rewrite Es. cbn [D.bind]. split; [reflexivity|]. split; [auto|].
-      destruct (DP.step_W _ _ _ _ _ _ _ _ HW' HN Es) as (W' & Nf' & _).
-      pose proof (DF.step_FI _ _ _ _ _ _ _ _ HW' HF' HN Es) as F'.
-      assert (Enf : D.nfaces d' = Z.of_nat (S k)) by lia. rewrite Enf in W', F'.
-      split; [auto|]. split; [auto|]. split; [rewrite cntv_app; cbn [cntv]; lia|]. split; [auto|]. split; [auto|].
-      exact St'. }
-    destruct Sc as [(-> & N0 & N1 & N2)|[(-> & K1 & Eo & N0 & N1)|[(-> & K1 & Eo & N0 & N2)|(-> & K1 & Eo & N0 & CI)]]].
-    + (* E *)
-      destruct (dec_step_E_full NC maxv rm d (0 + Z.of_nat k) (Z.of_nat (length Y)) HW' HN ltac:(unfold cntv1 in Hc1; cbn in Hc1; lia) Hev)
-        as (d' & Es & A1 & A2 & A3 & A4 & A5 & A6 & A7 & A8).
-      apply (Fin d' Es); [ | rewrite A3; reflexivity | exact A5 | congruence | rewrite A4; discriminate | ].
-      * apply (SIM_E k d d'); auto; try (rewrite ?A2, ?Hnf; auto; lia).
-        intros r Hr. destruct r as [|[|[|r]]]; auto; lia.
-      * rewrite A4, Hst0. cbn [tops]. rewrite Ey. cbn [Z.eqb Pos.eqb map]. f_equal. unfold dco. rewrite Hnf. lia.
-    + (* R *)
-      destruct (Hst (k - 1)%nat ltac:(lia)) as (rest & Est & Erest).
-      assert (Fa : D.copp d (dco (k - 1) 0) = -1).
-      { pose proof (s_opp _ _ HS (k - 1)%nat 0%nat ltac:(lia) ltac:(lia)) as X. unfold s_opp_at in X.
-        destruct (opp_facts _ _ Eo) as (Eo' & _). rewrite Eo' in X. destruct X as [_ X]. apply X.
-        intros j' Hj' F. rewrite eco_face in F. apply Q_face_inj in F; lia. }
-      destruct (dec_step_RL_full NC maxv rm true d (0 + Z.of_nat k) (Z.of_nat (length Y)) _ rest HW' HN ltac:(unfold cntv1 in Hc1; cbn in Hc1; lia) Hev Est Fa)
-        as (d' & Es & A1 & A2 & A3 & A4 & A5 & A6 & A7 & A8).
-      apply (Fin d' Es); [ | rewrite A3; reflexivity | exact A5 | congruence | rewrite A4; discriminate | ].
-      * apply (SIM_RL k d d' 2%nat); auto; try lia.
-        -- rewrite A1, Hnf. replace (dco k 2) with (3 * Z.of_nat k + 2) by (unfold dco; lia). reflexivity.
-        -- rewrite A2, Hnf. cbn [Nat.modulo Nat.divmod Nat.add fst snd Nat.sub].
-           replace (dco k 2) with (3 * Z.of_nat k + 2) by (unfold dco; lia).
-           replace (dco k 1) with (3 * Z.of_nat k + 1) by (unfold dco; lia).
-           replace (dco k 0) with (3 * Z.of_nat k) by (unfold dco; lia). reflexivity.
-      * rewrite A4, Erest. cbn [tops]. rewrite Ey. cbn [Z.eqb Pos.eqb map]. f_equal. unfold dco. rewrite Hnf. lia.
-    + (* L *)
-      destruct (Hst (k - 1)%nat ltac:(lia)) as (rest & Est & Erest).
-      assert (Fa : D.copp d (dco (k - 1) 0) = -1).
-      { pose proof (s_opp _ _ HS (k - 1)%nat 0%nat ltac:(lia) ltac:(lia)) as X. unfold s_opp_at in X.
-        destruct (opp_facts _ _ Eo) as (Eo' & _). rewrite Eo' in X. destruct X as [_ X]. apply X.
-        intros j' Hj' F. rewrite eco_face in F. apply Q_face_inj in F; lia. }
-      destruct (dec_step_RL_full NC maxv rm false d (0 + Z.of_nat k) (Z.of_nat (length Y)) _ rest HW' HN ltac:(unfold cntv1 in Hc1; cbn in Hc1; lia) Hev Est Fa)
-        as (d' & Es & A1 & A2 & A3 & A4 & A5 & A6 & A7 & A8).
-      apply (Fin d' Es); [ | rewrite A3; reflexivity | exact A5 | congruence | rewrite A4; discriminate | ].
-      * apply (SIM_RL k d d' 1%nat); auto; try lia.
-        -- rewrite A1, Hnf. replace (dco k 1) with (3 * Z.of_nat k + 1) by (unfold dco; lia). reflexivity.
-        -- rewrite A2, Hnf. cbn [Nat.modulo Nat.divmod Nat.add fst snd Nat.sub].
-           replace (dco k 2) with (3 * Z.of_nat k + 2) by (unfold dco; lia).
-           replace (dco k 1) with (3 * Z.of_nat k + 1) by (unfold dco; lia).
-           replace (dco k 0) with (3 * Z.of_nat k) by (unfold dco; lia). reflexivity.
-      * rewrite A4, Erest. cbn [tops]. rewrite Ey. cbn [Z.eqb Pos.eqb map]. f_equal. unfold dco. rewrite Hnf. lia.
-    + (* C *)
-      destruct (Hst (k - 1)%nat ltac:(lia)) as (rest & Est & Erest).
-      destruct (fan_lmc k d K1 Hkq HS HW HF Eo CI) as (jb & rb & Hjb & Hrb & El & Evc).
-      set (rl := ((rb + 1) mod 3)%nat) in *.
-      assert (Hrl : (rl < 3)%nat) by (apply Nat.mod_upper_bound; lia).
-      assert (Fa : D.copp d (dco (k - 1) 0) = -1).
-      { pose proof (s_opp _ _ HS (k - 1)%nat 0%nat ltac:(lia) ltac:(lia)) as X. unfold s_opp_at in X.
-        destruct (opp_facts _ _ Eo) as (Eo' & _). rewrite Eo' in X. destruct X as [_ X]. apply X.
-        intros j' Hj' F. rewrite eco_face in F. apply Q_face_inj in F; lia. }
-      assert (Fb : D.copp d (dco jb rl) = -1).
-      { pose proof (s_opp _ _ HS jb rl Hjb Hrl) as X. unfold s_opp_at in X.
-        destruct (opp_facts _ _ El) as (El' & _). rewrite El' in X. destruct X as [_ X]. apply X.
-        intros j' Hj' F. rewrite eco_face in F. apply Q_face_inj in F; lia. }
-      assert (Ena : D.next_c (dco (k - 1) 0) = dco (k - 1) 1) by (rewrite dco_next by lia; reflexivity).
-      assert (Epa : D.prev_c (dco (k - 1) 0) = dco (k - 1) 2) by (rewrite dco_prev by lia; reflexivity).
-      assert (Eb : D.next_c (dco jb rb) = dco jb rl) by (rewrite dco_next by lia; reflexivity).
-      destruct (opp_facts _ _ Eo) as (_ & _ & _ & _ & _ & _ & Vr1 & Vr2).
-      destruct (opp_facts _ _ El) as (_ & _ & _ & _ & _ & _ & Vl1 & Vl2).
-      assert (E1 : eco k 1 = next_c (eco k 0)) by reflexivity. assert (E2 : eco k 2 = prev_c (eco k 0)) by reflexivity.
-      rewrite E1 in Vr1, Vr2. rewrite E2 in Vl1, Vl2. rewrite next_next in Vr1. rewrite prev_next in Vr2. rewrite next_prev in Vl1. rewrite prev_prev in Vl2.
-      destruct (Qrng k Hkq) as [_ Dk]. destruct (nondeg_corner c2v _ Dk) as (Nk1 & Nk2 & Nk3).
-      destruct (Qrng (k - 1)%nat ltac:(lia)) as [_ Dk1]. destruct (nondeg_corner c2v _ Dk1) as (Nr1 & Nr2 & Nr3).
-      destruct (dec_step_C_full NC maxv rm d (0 + Z.of_nat k) (Z.of_nat (length Y)) (dco (k - 1) 0) rest HW' HN Est)
-        as (d' & Es & A1 & A2 & A3 & A4 & A5 & A6 & A7 & A8).
-      * rewrite Ena, Evc, Hnf. unfold dco. lia.
-      * rewrite Ena, Evc, Eb. unfold dco. intro X.
-        assert (Y0 : (eco (k - 1) 0 / 3)%nat <> (eco jb rl / 3)%nat).
-        { apply (nbr_next_distinct c2v opp nf Hlen OK (next_c (eco k 0))); [exact Eo|rewrite next_next; exact El]. }
-        apply Y0. rewrite !eco_face. f_equal. f_equal. lia.
-      * exact Fa.
-      * rewrite Ena, Evc, Eb. exact Fb.
-      * rewrite Ena, Epa. intro X. apply (s_vtx _ _ HS) in X; try lia. apply Nr3. exact X.
-      * rewrite Ena, Evc, Eb, dco_next by auto. intro X. apply (s_vtx _ _ HS) in X; try lia.
-        rewrite eco_next in X by auto. change (eco (k - 1) 1) with (next_c (eco (k - 1) 0)) in X.
-        apply Nk1. change (nth k Q 0%nat) with (eco k 0). congruence.
-      * rewrite Ena, Evc, Eb in A1, A2.
-        apply (Fin d' Es); [ | rewrite A3; unfold cntv1; cbn; lia | congruence | congruence | rewrite A4; discriminate | ].
-        -- apply (SIM_C k d d' jb rb); auto; try lia.
-           ++ rewrite A1, Hnf. fold rl.
-              replace (dco k 1) with (3 * Z.of_nat k + 1) by (unfold dco; lia).
-              replace (dco k 2) with (3 * Z.of_nat k + 2) by (unfold dco; lia). reflexivity.
-           ++ rewrite A2, Hnf. fold rl. rewrite Ena, Epa.
-              replace (dco k 1) with (3 * Z.of_nat k + 1) by (unfold dco; lia).
-              replace (dco k 2) with (3 * Z.of_nat k + 2) by (unfold dco; lia).
-              replace (dco k 0) with (3 * Z.of_nat k) by (unfold dco; lia). reflexivity.
-        -- rewrite A4, Erest. cbn [tops]. rewrite Ey. cbn [Z.eqb Pos.eqb map]. f_equal. unfold dco. rewrite Hnf. lia.
-Qed.
-
-(** ** the start-face phase when every start configuration is a boundary one, and the compaction without S *)
-Lemma start_loop_false nfz bits : (forall i, bits i = false) -> forall stk k s,
-  exists s', D.start_loop NC maxv nfz bits k stk s = D.Ok s' /\ D.c2v s' = D.c2v s /\ D.copp s' = D.copp s /\
-    D.nfaces s' = D.nfaces s /\ D.invalid s' = D.invalid s /\ D.nv s' = D.nv s.
-Proof.
-  intros Hb. induction stk as [|a r IH]; intros k s; cbn [D.start_loop].
-  - eexists. split; [reflexivity|]. cbn. repeat split; auto.
-  - rewrite Hb. destruct (IH (S k) (D.with_inits s ((false, a) :: D.inits s))) as (s' & E & A). exists s'. split; auto.
-Qed.
-
-
-(** ** the start-face phase with interior start faces *)
-Definition cnt_true (B : list bool) : nat := count_occ bool_dec B true.
-Lemma cnt_true_firstn_S B i : (i < length B)%nat ->
-  cnt_true (firstn (S i) B) = (cnt_true (firstn i B) + if nth i B false then 1 else 0)%nat.
-Proof.
-  revert i. induction B as [|b B IH]; intros i Hi; cbn [length] in Hi; [lia|]. destruct i as [|i].
-  - cbn. destruct b; cbn; auto.
-  - specialize (IH i ltac:(lia)). unfold cnt_true in *. cbn [nth].
-    change (firstn (S (S i)) (b :: B)) with (b :: firstn (S i) B). change (firstn (S i) (b :: B)) with (b :: firstn i B).
-    destruct b.
-    + rewrite !count_occ_cons_eq by reflexivity. lia.
-    + rewrite !count_occ_cons_neq by discriminate. lia.
-Qed.
-Lemma cnt_true_le B i : (cnt_true (firstn i B) <= cnt_true B)%nat.
-Proof.
-  unfold cnt_true. rewrite <- (firstn_skipn i B) at 2. rewrite count_occ_app. lia.
-Qed.
-
-(** what the encoder guarantees about its runs: the decoder's stack after the symbol loop lists the first corners of the runs
-    in encoding order (top first), one per start-face bit; an interior start configuration [i] comes with the start face
-    Q[ns + (number of interior configurations before i)], glued to the run's first corner, its three vertices interior
-    with all other faces around them created *)
-Definition start_ok (B : list bool) : Prop :=
-  let ns := length Y in
-  length (tops ns) = length B /\ (ns + cnt_true B = length Q)%nat /\
-  forall i j, nth_error (tops ns) i = Some j -> nth i B false = true ->
-    let m := (ns + cnt_true (firstn i B))%nat in
-    opp_at opp (eco m 0) = Some (eco j 0) /\ Cint_t m (eco m 0) /\ Cint_t m (eco m 1) /\ Cint_t m (eco m 2).
-
-Lemma tops_lt k : forall j, In j (tops k) -> (j < k)%nat.
-Proof.
-  induction k as [|k IH]; cbn [tops]; intros j Hj; [contradiction|].
-  assert (T1 : forall l : list nat, In j (tl l) -> In j l) by (intros [|x l]; cbn; auto).
-  destruct (nth_error Y k) as [y|]; [|apply IH in Hj; lia].
-  destruct (y =? 7); [|destruct (y =? 1)]; destruct Hj as [<-|Hj]; try lia.
-  - apply IH in Hj. lia.
-  - apply T1, T1, IH in Hj. lia.
-  - apply T1, IH in Hj. lia.
-Qed.
-
-Lemma start_loop_sim B : start_ok B -> NC = 3 * Z.of_nat (length Q) ->
-  forall RS' i d, RS' = skipn i (tops (length Y)) ->
-  let m := (length Y + cnt_true (firstn i B))%nat in
-  SIM m d -> DP.W NC maxv (Z.of_nat m) d -> DC.FJ (Z.of_nat m) d -> LAB m d -> D.invalid d = [] ->
-  exists d', D.start_loop NC maxv (Z.of_nat (length Q)) (D.bits_of_list B) i (map (fun j => dco j 0) RS') d = D.Ok d' /\
-    SIM (length Q) d' /\ LAB (length Q) d' /\ D.invalid d' = [].
-Proof.
-  intros (SL & ST & SF) HNC'. set (ns := length Y) in *.
-  induction RS' as [|j R IH]; intros i d ERS m HS HW HJ HL Hinv.
-  - cbn [map D.start_loop]. eexists. split; [reflexivity|].
-    assert (Hi : (length B <= i)%nat).
-    { assert (L : length (skipn i (tops ns)) = 0%nat) by (rewrite <- ERS; reflexivity). rewrite skipn_length in L. lia. }
-    assert (Em : m = length Q). { unfold m. rewrite firstn_all2 by lia. lia. }
-    rewrite Em in HS, HL. split; [destruct HS as [S1 S2 S3]; constructor; auto|]. split; [exact HL|exact Hinv].
-  - assert (Hi : (i < length (tops ns))%nat).
-    { assert (L : length (skipn i (tops ns)) = S (length R)) by (rewrite <- ERS; reflexivity). rewrite skipn_length in L. lia. }
-    assert (Ej : nth_error (tops ns) i = Some j).
-    { rewrite <- (firstn_skipn i (tops ns)), <- ERS. rewrite nth_error_app2 by (rewrite firstn_length_le; lia).
-      rewrite firstn_length_le by lia. rewrite Nat.sub_diag. reflexivity. }
-    assert (ER : R = skipn (S i) (tops ns)) by (eapply skipn_cons_tail; eauto).
-    assert (Hjn : (j < ns)%nat) by (apply tops_lt; eapply nth_error_In; eauto).
-    pose proof (cnt_true_firstn_S B i ltac:(lia)) as CS.
-    pose proof (cnt_true_le B i) as CL.
-    cbn [map D.start_loop]. unfold D.bits_of_list at 1.
-    destruct (nth i B false) eqn:Eb.
-    + (* an interior start configuration *)
-      destruct (SF i j Ej Eb) as (E0 & C0 & C1 & C2). fold m in E0, C0, C1, C2.
-      assert (Hm : (m < length Q)%nat) by (unfold m; pose proof (cnt_true_le B (S i)); lia).
-      assert (Hjm : (j < m)%nat) by (unfold m; lia).
-      assert (X1 : eco m 1 = next_c (eco m 0)) by reflexivity. assert (X2 : eco m 2 = prev_c (eco m 0)) by reflexivity.
-      destruct (Qrng m Hm) as [Hm0 _]. fold (eco m 0) in Hm0.
-      (* the two lookups *)
-      assert (Er2 : opp_at opp (next_c (eco m 2)) = Some (eco j 0)) by (rewrite X2, next_prev; exact E0).
-      destruct (fan_lmc_t m d (eco m 2) j 0%nat Hm HS HL HJ (eco_face m 2) (eco_rng m 2 Hm) C2 Hjm ltac:(lia) Er2)
-        as (jb & rb0 & Hjb & Hrb0 & E1 & V1).
-      rewrite X2, prev_prev, <- X1 in E1. cbn [Nat.modulo Nat.divmod Nat.add fst snd Nat.sub] in V1.
-      set (rl1 := ((rb0 + 1) mod 3)%nat) in *.
-      assert (Hrl1 : (rl1 < 3)%nat) by (apply Nat.mod_upper_bound; lia).
-      destruct (fan_lmc_t m d (eco m 0) jb rl1 Hm HS HL HJ (eco_face m 0) (eco_rng m 0 Hm) C0 Hjb Hrl1 E1)
-        as (jc & rc0 & Hjc & Hrc0 & E2 & V2).
-      rewrite <- X2 in E2.
-      set (rl2 := ((rc0 + 1) mod 3)%nat) in *.
-      assert (Hrl2 : (rl2 < 3)%nat) by (apply Nat.mod_upper_bound; lia).
-      (* distinct faces *)
-      assert (F01 : (eco j 0 / 3)%nat <> (eco jb rl1 / 3)%nat).
-      { apply (nbr_next_distinct c2v opp nf Hlen OK (eco m 0)); [exact E0|exact E1]. }
-      assert (F12 : (eco jb rl1 / 3)%nat <> (eco jc rl2 / 3)%nat).
-      { apply (nbr_next_distinct c2v opp nf Hlen OK (next_c (eco m 0))); [exact E1|rewrite next_next; exact E2]. }
-      assert (F20 : (eco jc rl2 / 3)%nat <> (eco j 0 / 3)%nat).
-      { apply (nbr_next_distinct c2v opp nf Hlen OK (prev_c (eco m 0))); [exact E2|rewrite next_prev; exact E0]. }
-      rewrite !eco_face in F01, F12, F20.
-      assert (Nj1 : j <> jb) by congruence. assert (Nj2 : jb <> jc) by congruence. assert (Nj3 : jc <> j) by congruence.
-      (* the three glued corners are free *)
-      assert (Free : forall j0 r0 rr, (j0 < m)%nat -> (r0 < 3)%nat -> opp_at opp (eco m rr) = Some (eco j0 r0) -> D.copp d (dco j0 r0) = -1).
-      { intros j0 r0 rr Hj0 Hr0 Eo. pose proof (s_opp _ _ HS j0 r0 Hj0 Hr0) as X. unfold s_opp_at in X.
-        destruct (opp_facts _ _ Eo) as (Eo' & _). rewrite Eo' in X. destruct X as [_ X]. apply X.
-        intros j' Hj' F. rewrite eco_face in F. apply Q_face_inj in F; lia. }
-      pose proof (s_nf _ _ HS) as Hnf.
-      assert (HW' : DP.W NC maxv (D.nfaces d) d) by (rewrite Hnf; auto).
-      assert (Ena : D.next_c (dco j 0) = dco j 1) by (rewrite dco_next by lia; reflexivity).
-      assert (Eb1 : D.next_c (dco jb rb0) = dco jb rl1) by (rewrite dco_next by lia; reflexivity).
-      assert (Eb2 : D.next_c (dco jc rc0) = dco jc rl2) by (rewrite dco_next by lia; reflexivity).
-      assert (Enb : D.next_c (dco jb rl1) = dco jb ((rl1 + 1) mod 3)) by (rewrite dco_next by lia; reflexivity).
-      (* around the third vertex: Vertex(Previous(corner_a)) = Vertex(Next(corner_c)) *)
-      assert (Ew : D.c2v d (dco j ((0 + 2) mod 3)) = D.c2v d (dco jc ((rl2 + 1) mod 3))).
-      { destruct (fan_walk m d (eco m 1) ltac:(lia) HS HL) as (j1 & r1 & j2 & r2 & H1 & H2 & H3 & H4 & Esr & Esl & Ev); auto.
-        { rewrite X1. apply next_lt; auto. } { rewrite eco_face. apply (Qrng m Hm). }
-        unfold swing_right in Esr. rewrite X1, prev_next, E0 in Esr. inversion Esr as [Q1].
-        unfold swing_left in Esl. rewrite X1, next_next, <- X2, E2 in Esl. inversion Esl as [Q2].
-        assert (Q1' : eco j 2 = eco j1 r1) by exact Q1. apply eco_inj in Q1'; try lia. destruct Q1' as [<- <-].
-        assert (Q2' : eco jc ((rl2 + 1) mod 3) = eco j2 r2) by (rewrite eco_next by auto; exact Q2).
-        apply eco_inj in Q2'; try lia. destruct Q2' as [<- <-]. exact Ev. }
-      destruct (dec_start_face NC maxv (Z.of_nat (length Q)) d (dco j 0) HW' HNC')
-        as (d' & Es & A1 & A2 & A3 & A4 & A5 & A6 & A7 & A8 & A9).
-      * rewrite Hnf. lia.
-      * rewrite Hnf. unfold dco. lia.
-      * rewrite Ena, V1, Hnf. unfold dco. lia.
-      * rewrite Ena, V1, Eb1, Enb, V2, Hnf. unfold dco. lia.
-      * rewrite Ena, V1, Eb1. unfold dco. lia.
-      * rewrite Ena, V1, Eb1, Enb, V2, Eb2. unfold dco. lia.
-      * rewrite Ena, V1, Eb1, Enb, V2, Eb2. unfold dco. lia.
-      * apply (Free j 0%nat 0%nat); auto.
-      * rewrite Ena, V1, Eb1. apply (Free jb rl1 1%nat); auto.
-      * rewrite Ena, V1, Eb1, Enb, V2, Eb2. apply (Free jc rl2 2%nat); auto.
-      * rewrite Ena, V1, Eb1, Enb, V2, Eb2. rewrite (dco_prev j 0), (dco_next jc rl2) by lia. exact Ew.
-      * rewrite Ena, V1, Eb1, Enb, V2, Eb2 in A1, A2. rewrite Hnf in A1, A2, A9.
-        replace (3 * Z.of_nat m + 2) with (dco m 2) in A1, A2 by (unfold dco; lia).
-        replace (3 * Z.of_nat m + 1) with (dco m 1) in A1, A2 by (unfold dco; lia).
-        replace (3 * Z.of_nat m) with (dco m 0) in A1, A2 by (unfold dco; lia).
-        rewrite <- Enb, <- Ena in A2.
-        assert (HS' : SIM (S m) d').
-        { apply (SIM_start m d d' j jb rl1 jc rl2); auto. rewrite A9. lia. }
-        (* SwingLeft keeps the vertex *)
-        assert (Vn : 0 <= D.c2v d (dco j 1) < D.nv d) by (apply (DP.w_vr _ _ _ _ HW); unfold dco; lia).
-        assert (Vx : 0 <= D.c2v d (dco jb ((rl1 + 1) mod 3)) < D.nv d) by (apply (DP.w_vr _ _ _ _ HW); unfold dco; lia).
-        assert (HL' : LAB (S m) d').
-        { apply (LAB_start m d d' j jb rl1 jc rl2); auto.
-          - rewrite (dco_prev j 0), (dco_next jc rl2) by lia. exact Ew.
-          - replace (D.prev_c (dco jb rl1)) with (dco jb rb0) by (rewrite <- Eb1; symmetry; apply prev_next_dco).
-            rewrite <- V1. rewrite Ena. apply (DC.j_vc _ _ HJ); auto. rewrite V1. unfold dco. lia.
-          - replace (D.prev_c (dco jc rl2)) with (dco jc rc0) by (rewrite <- Eb2; symmetry; apply prev_next_dco).
-            rewrite <- V2. rewrite Enb. apply (DC.j_vc _ _ HJ); auto. rewrite V2. unfold dco. lia. }
-        destruct (DP.start_face_W NC maxv (Z.of_nat (length Q)) d (dco j 0) d' HNC' HW') as (HW2 & Nf2 & _); auto.
-        { rewrite Hnf. unfold dco. lia. }
-        pose proof (DC.start_face_FJ NC maxv (Z.of_nat (length Q)) d (dco j 0) d' HNC' HW') as HJ2.
-        rewrite Hnf in HJ2. specialize (HJ2 HJ ltac:(unfold dco; lia) Es).
-        rewrite Es. cbn [D.bind].
-        assert (Em' : (ns + cnt_true (firstn (S i) B) = S m)%nat) by (unfold m; rewrite CS; lia).
-        rewrite Nf2, Hnf in HW2. replace (Z.of_nat m + 1) with (Z.of_nat (S m)) in HW2 by lia.
-        rewrite Nf2, Hnf in HJ2. replace (Z.of_nat m + 1) with (Z.of_nat (S m)) in HJ2 by lia.
-        destruct (IH (S i) d' ER) as (d2 & E2' & R1 & R2 & R3);
-          [rewrite Em'; exact HS'|rewrite Em'; exact HW2|rewrite Em'; exact HJ2|rewrite Em'; exact HL'|congruence|].
-        exists d2. auto.
-    + (* a boundary start configuration: nothing is created *)
-      assert (Em' : (ns + cnt_true (firstn (S i) B) = m)%nat) by (unfold m; rewrite CS; lia).
-      destruct (IH (S i) (D.with_inits d ((false, dco j 0) :: D.inits d)) ER) as (d2 & E2' & R1 & R2 & R3);
-        [rewrite Em'; destruct HS as [S1 S2 S3]; constructor; auto|rewrite Em'; apply DP.W_with_inits; auto
-        |rewrite Em'; destruct HJ; constructor; auto|rewrite Em'; exact HL|exact Hinv|].
-      exists d2. auto.
-Qed.
-
-(** ** the decoder on a script without S and without split events (interior start faces allowed) *)
-Theorem dec_roundtrip_noS B :
-  (forall f, (f < nf)%nat -> is_degenerated c2v f = false -> In f (map (fun c => (c / 3)%nat) Q)) -> one_fan c2v opp ->
-  (forall j, (j < length Y)%nat -> script_at j) -> start_ok B ->
-  exists n s, D.eb_core NC maxv (Z.of_nat (length Q)) rm Y [] (D.bits_of_list B) = D.Ok (n, s) /\ eb_iso c2v opp Q (D.c2v s) (D.copp s).
-Proof.
-  intros Complete FAN Sc SO. destruct (sym_loop_sim (length Y) (le_n _) Sc) as (d & E & HS & HW & HF & Hnv & Hev & Hinv & Hst).
-  rewrite firstn_all in E. unfold D.eb_core. rewrite E. cbn [D.bind].
-  pose proof (DP.w_nv _ _ _ _ HW) as Hn. replace (D.nv d >? maxv) with false by lia.
-  destruct (start_loop_sim B SO HNC (tops (length Y)) 0%nat d eq_refl) as (s' & E' & A1 & A2 & A3); auto.
-  { cbn [firstn]. unfold cnt_true. cbn. rewrite Nat.add_0_r. auto. }
-  { cbn [firstn]. unfold cnt_true. cbn. rewrite Nat.add_0_r. auto. }
-  { cbn [firstn]. unfold cnt_true. cbn. rewrite Nat.add_0_r. apply DC.FI_FJ. auto. }
-  { cbn [firstn]. unfold cnt_true. cbn. rewrite Nat.add_0_r. apply FI_LAB. auto. }
-  rewrite Hst, E'. cbn [D.bind]. rewrite (s_nf _ _ A1), Z.eqb_refl. cbn [negb].
-  rewrite A3. cbn [rev D.compact D.bind fst snd]. eexists _, s'. split; [reflexivity|].
-  apply sim_iso_lab; auto.
-Qed.
-
-(** ** the decoder on a script without S, without split events, all start configurations on a boundary *)
-Theorem dec_roundtrip_noS_boundary bits :
-  (forall f, (f < nf)%nat -> is_degenerated c2v f = false -> In f (map (fun c => (c / 3)%nat) Q)) -> one_fan c2v opp ->
-  length Y = length Q -> (forall j, (j < length Y)%nat -> script_at j) ->
-  (forall i, bits i = false) ->
-  exists n s, D.eb_core NC maxv (Z.of_nat (length Q)) rm Y [] bits = D.Ok (n, s) /\ eb_iso c2v opp Q (D.c2v s) (D.copp s).
-Proof.
-  intros Complete FAN HL Sc Hb. destruct (sym_loop_sim (length Y) (le_n _) Sc) as (d & E & HS & HW & HF & Hnv & Hev & Hinv & _).
-  rewrite firstn_all in E. unfold D.eb_core. rewrite E. cbn [D.bind].
-  pose proof (DP.w_nv _ _ _ _ HW) as Hn. replace (D.nv d >? maxv) with false by lia.
-  destruct (start_loop_false (Z.of_nat (length Q)) bits Hb (D.stack d) O d) as (s' & E' & A1 & A2 & A3 & A4 & A5).
-  rewrite E'. cbn [D.bind]. rewrite A3, (s_nf _ _ HS), HL, Z.eqb_refl. cbn [negb].
-  rewrite A4, Hinv. cbn [rev D.compact D.bind fst snd]. eexists _, s'. split; [reflexivity|].
-  rewrite A1, A2. rewrite HL in HS, HF. apply sim_iso; auto.
-Qed.
-
 End Sim.
